@@ -143,7 +143,9 @@ def body(case, ctx, tmp):
         ctx.count("fits")
 
     run(start, epochs)
-    ran1 = [e["epoch"] for e in log if e["type"] == "cb" and e["event"] == "epoch_end"]
+    # "epochs of the run" = epochs that were started (every started epoch also ends: C12); taking them from the start
+    # events makes an epoch whose end event is lost (e.g. cut by a mid-batch stop) count as missed by the callbacks
+    ran1 = [e["epoch"] for e in log if e["type"] == "cb" and e["event"] == "epoch_start"]
     if st.stop_training:
         ctx.count("runs_cut_by_stop")
     check_all(ctx, tags, ran1, (pm1, pm2, po, psv, plg), ev1, ev2, evo, rec_metric, rec_obs, rec_log, snaps, folder, md_mode, md_obj,
@@ -163,7 +165,7 @@ def body(case, ctx, tmp):
         rec.n = 10 ** 9  # no further stop injection
         s2 = (ran1[-1] + 1) if ran1 else start
         run(s2, s2 + int(rng.integers(1, 5)))
-        ran_all = [e["epoch"] for e in log if e["type"] == "cb" and e["event"] == "epoch_end"]
+        ran_all = [e["epoch"] for e in log if e["type"] == "cb" and e["event"] == "epoch_start"]
         ran2 = ran_all[n_before:]
         check_all(ctx, tags, (ran2 if clear else ran_all), (pm1, pm2, po, psv, plg), ev1, ev2, evo, rec_metric, rec_obs, rec_log, snaps,
                   folder, md_mode, md_obj, save_initial, csv1, csvo, st, use_gen, first_run=False, kind=kind, csv_epochs=ran_all,
